@@ -7,6 +7,7 @@ import (
 	"fmt"
 	"strconv"
 	"strings"
+	"time"
 
 	"bfeverif/harness/internal/vh"
 	"github.com/baidu/go-lib/web-monitor/metrics"
@@ -120,7 +121,107 @@ func balOps(r *vh.Rand, total int) []string {
 	return []string{"bal " + strconv.Itoa(total)}
 }
 
+const ssT = 1000000 // slowStartTime used in generated histories (seconds)
+
+// genSlowStart: histories with slow start on: restarted / new backends, calls before, at and after the end of the
+// ramp (also a LATE crossing: the first call that observes elapsed ≥ slowStartTime comes up to 4x late), then
+// steady-state calls with the configured weights.
+func genSlowStart(r *vh.Rand) string {
+	n := r.Range(1, 6)
+	ws := make([]int, n)
+	eq := r.Chance(1, 4)
+	for i := range ws {
+		ws[i] = r.Range(1, 20)
+		if eq {
+			ws[i] = ws[0]
+		}
+	}
+	if n >= 2 && r.Chance(1, 10) {
+		ws[r.Intn(n)] = -r.Intn(2)
+	}
+	ids := make([]int, n)
+	for i := range ids {
+		ids[i] = i
+	}
+	nextID := n
+	W := func() int { return sumPos(ws) }
+	head := "init "
+	if r.Chance(1, 8) {
+		head = "ginit "
+	}
+	ops := []string{head + joinInts(ws)}
+	if r.Chance(1, 2) {
+		ops = append(ops, fmt.Sprintf("ss %d", ssT))
+		ops = append(ops, balOps(r, W()+r.Range(0, 5))...)
+	} else {
+		ops = append(ops, balOps(r, W()+r.Range(0, 5))...)
+		ops = append(ops, fmt.Sprintf("ss %d", ssT))
+	}
+	rounds := r.Range(1, 2)
+	for k := 0; k < rounds; k++ {
+		// who enters slow start
+		switch r.Intn(5) {
+		case 0: // a new member through Update
+			ws = append(ws, r.Range(1, 20))
+			ids = append(ids, nextID)
+			nextID++
+			p := make([]string, len(ws))
+			for i := range ws {
+				p[i] = fmt.Sprintf("%d:%d", ids[i], ws[i])
+			}
+			ops = append(ops, "upd "+strings.Join(p, ","))
+		case 1: // two restarted backends
+			ops = append(ops, fmt.Sprintf("rs %d", ids[r.Intn(len(ids))]), fmt.Sprintf("rs %d", ids[r.Intn(len(ids))]))
+		default:
+			ops = append(ops, fmt.Sprintf("rs %d", ids[r.Intn(len(ids))]))
+		}
+		// the call(s) in which the ramp begins
+		ops = append(ops, fmt.Sprintf("bal %d@0", r.Range(1, 3)))
+		// calls during the ramp
+		for j := r.Intn(3); j > 0; j-- {
+			ops = append(ops, fmt.Sprintf("bal %d@%d", r.Range(1, 2*W()+2), 1000*r.Range(1, 999)))
+		}
+		// rare: slow start switched off in mid-ramp, or a second restart in mid-ramp
+		if r.Chance(1, 12) {
+			ops = append(ops, "ss 0")
+			ops = append(ops, balOps(r, 2*W()+1)...)
+			ops = append(ops, fmt.Sprintf("ss %d", ssT))
+		}
+		// the crossing: exactly at the end, a little late, or very late (quiet sub-cluster)
+		var e int
+		switch r.Intn(4) {
+		case 0:
+			e = ssT
+		case 1:
+			e = ssT + 1000*r.Range(1, 50)
+		case 2:
+			e = ssT + 1000*r.Range(100, 900)
+		default:
+			e = 1000 * r.Range(1500, 4000)
+		}
+		ops = append(ops, fmt.Sprintf("bal %d@%d", r.Range(1, 3), e))
+		// steady state afterwards: settle, then 2..3 periods that the oracle judges on their own
+		ops = append(ops, fmt.Sprintf("bal %d@%d", r.Range(1, 4)*W()+r.Range(1, 3), e+1000))
+		ops = append(ops, balOps(r, r.Range(2, 3)*W()+r.Range(0, 5))...)
+		// rare: a reload that changes a weight, so that a later ramp meets a stale weightSS.final
+		if k+1 < rounds && r.Chance(1, 6) {
+			i := r.Intn(len(ws))
+			ws[i] = r.Range(1, 20)
+			p := make([]string, len(ws))
+			for j := range ws {
+				p[j] = fmt.Sprintf("%d:%d", ids[j], ws[j])
+			}
+			ops = append(ops, "upd "+strings.Join(p, ","))
+			ops = append(ops, balOps(r, W()+2)...)
+		}
+	}
+	return strings.Join(ops, "|")
+}
+
 func gen(r *vh.Rand) string {
+	if r.Chance(1, 3) {
+		return genSlowStart(r)
+	}
 	ws := genWeights(r)
 	ids := make([]int, len(ws))
 	avail := make([]bool, len(ws))
@@ -230,8 +331,25 @@ func pre(emit func(string), thorough bool) {
 // ---- executor --------------------------------------------------------------------------------
 
 type world struct {
-	brr  *bal_slb.BalanceRR
-	gslb *bal_gslb.BalanceGslb
+	brr   *bal_slb.BalanceRR
+	gslb  *bal_gslb.BalanceGslb
+	slack time.Duration // longest (set clock → end of Balance) interval of the case
+}
+
+// The harness chooses elapsed times as multiples of slowStartTime/1000 with weights ≤ 20 (final ≤ 2000) and
+// slowStartTime = 10^6 s, so the weight computed by updateSlowStart, floor(final*elapsed/slowStartTime), only
+// changes if the real clock adds ≥ 0.5 s between the hook call and time.Since inside Balance.  A case in which
+// that interval exceeded maxSlack is executed again (so the result never depends on scheduling delays).
+const maxSlack = 100 * time.Millisecond
+
+func exec(op string) string {
+	for try := 0; try < 8; try++ {
+		r, slack := exec1(op)
+		if slack <= maxSlack {
+			return r
+		}
+	}
+	return "timing-unstable"
 }
 
 const subName = "sub"
@@ -272,8 +390,18 @@ func (wd *world) balance() string {
 	return strconv.Itoa(idOfInfo(b.AddrInfo))
 }
 
-func exec(op string) string {
-	var wd world
+func exec1(op string) (string, time.Duration) {
+	r, wd := exec2(op)
+	return r, wd.slack
+}
+
+func exec2(op string) (string, *world) {
+	wd := &world{}
+	r := exec3(op, wd)
+	return r, wd
+}
+
+func exec3(op string, wd *world) string {
 	var out []string
 	for k, o := range strings.Split(op, "|") {
 		f := strings.Split(o, " ")
@@ -306,20 +434,52 @@ func exec(op string) string {
 			}
 			out = append(out, "ok")
 		case f[0] == "bal" && len(f) == 2:
-			n, err := strconv.Atoi(f[1])
-			if err != nil || n < 0 || n > 100000 {
+			ke := strings.Split(f[1], "@")
+			n, err := strconv.Atoi(ke[0])
+			if err != nil || n < 0 || n > 100000 || len(ke) > 2 {
 				return "bad-op"
+			}
+			elapsed := 0
+			if len(ke) == 2 {
+				if elapsed, err = strconv.Atoi(ke[1]); err != nil || elapsed < 0 || elapsed > 4100000 {
+					return "bad-op"
+				}
 			}
 			ps := make([]string, n)
 			for i := range ps {
+				// the clock: every backend in slow start observes `elapsed` seconds in this call
+				t0 := time.Now()
+				wd.brr.VerifC01SetElapsed(time.Duration(elapsed) * time.Second)
 				ps[i] = wd.balance()
+				if d := time.Since(t0); d > wd.slack {
+					wd.slack = d
+				}
 			}
-			_, _, cur := wd.brr.VerifC01Dump()
+			_, wt, cur := wd.brr.VerifC01Dump()
+			inSS, fin := wd.brr.VerifC01DumpSS()
+			ss := make([]int, len(inSS))
+			for i, b := range inSS {
+				ss[i] = b2i(b)
+			}
 			p := "-"
 			if n > 0 {
 				p = strings.Join(ps, ",")
 			}
-			out = append(out, "p="+p+";c="+joinInts(cur))
+			out = append(out, "p="+p+";c="+joinInts(cur)+";w="+joinInts(wt)+";s="+joinInts(ss)+";f="+joinInts(fin))
+		case f[0] == "ss" && len(f) == 2:
+			t, err := strconv.Atoi(f[1])
+			if err != nil || t < 0 {
+				return "bad-op"
+			}
+			wd.brr.SetSlowStart(t)
+			out = append(out, "ok")
+		case f[0] == "rs" && len(f) == 2:
+			id, err := strconv.Atoi(f[1])
+			if err != nil {
+				return "bad-op"
+			}
+			wd.brr.VerifC01SetRestart(infoOf(id))
+			out = append(out, "ok")
 		case f[0] == "av" && len(f) == 3:
 			id, err := strconv.Atoi(f[1])
 			if err != nil {
